@@ -674,7 +674,8 @@ def mon_c06(t):
     delseen = set()
     removed = set()
     fetched = {}
-    served = {}      # node -> (ClusterCIDR name, CIDRs): who the controller itself took the node's blocks from, this incarnation
+    served = {}      # node -> (ClusterCIDR name, CIDRs, incarnation): who the controller itself took the node's blocks from
+    inc = 0
     for k, op in enumerate(t.ops):
         f = op.split()
         if f[0] == "cc+":
@@ -684,8 +685,11 @@ def mon_c06(t):
                 served = {n: v for n, v in served.items() if v[0] != f[1]}
         if f[0] == "n-":
             served.pop(f[1], None)
-        if f[0] in ("crash", "construct"):
-            served = {}      # after a restart the node is accounted to whichever ClusterCIDR re-occupies its CIDRs
+        # after a restart the node is accounted to whichever ClusterCIDR re-occupies its CIDRs: [served] is kept, and a removal
+        # is excused below when another entry holds the node's CIDRs on its behalf, or when the ClusterCIDR no longer selects
+        # the node (a new incarnation finds the ClusterCIDR of a node's CIDRs through the node's current labels)
+        if f[0] == "construct":
+            inc += 1
         # which ClusterCIDR object does this step process?
         proc = None
         if f[0] == "pc" and k > 0:
@@ -725,7 +729,12 @@ def mon_c06(t):
                     # that may be gone: the history of its writes is the ground truth)
                     for n in t.api[k - 1][0]:
                         sv = served.get(n["name"])
+                        elsewhere = any(en["name"] != e["name"] and n["name"] in en["assoc"]
+                                        and all(c is not None and en[c[0]] is not None and any(overlap(c, key) for key in en[c[0]]["keys"]) for c in n["cidrs"])
+                                        for en in (t.snap[k - 1] or []))
+                        still_selected = sv is not None and (sv[2] == inc or (spec is not None and sel_matches(spec["sel"], n["labels"])))
                         if sv and sv[0] == e["name"] and not n["deleting"] and n["cidrs"] and sorted(map(str, n["cidrs"])) == sorted(map(str, sv[1])) \
+                                and not elsewhere and still_selected \
                                 and not any(b["step"] == k and ("node %s" % n["name"]) in b["detail"] for b in bad):
                             bad.append({"step": k, "clause": "finalizer removed while an existing node depends on the ClusterCIDR",
                                         "detail": "%s was the source of %s written to node %s, which still exists" % (e["name"], sv[1], n["name"]),
@@ -734,7 +743,7 @@ def mon_c06(t):
             if e["kind"] == "patch" and e["out"] in ("ok", "tmo"):
                 ent = entry_of_patch(t.snap[k], e["node"], e["cidrs"])
                 if ent is not None and e["node"] in ent["assoc"]:
-                    served[e["node"]] = (ent["name"], e["cidrs"])
+                    served[e["node"]] = (ent["name"], e["cidrs"], inc)
                 if ent is not None and ent["name"] in delseen:
                     bad.append({"step": k, "clause": "allocation from a ClusterCIDR after its deletion request was processed",
                                 "detail": "%s served from %s" % (e["node"], ent["name"]), "cls": "allocated-after-deletion-processed"})
@@ -791,12 +800,23 @@ def mon_c11(t, drain_from):
     if t.snap[k] is None:
         return bad
     nodes, ccs = t.api[k]
+    KNOWN_LEAKS = ("holder-deleted-stale-tombstone", "holder-deleted-before-informers-started", "holder-replaced-seen-as-update")
+    leaks = [b for b in mon_c04(t) if b["step"] == k and b["cls"] not in KNOWN_LEAKS] if any(n["raw"] == "-" and not n["deleting"] for n in nodes) else []
     for n in nodes:
         if n["raw"] == "-" and not n["deleting"]:
-            room = [en["name"] for en, sp in eligible_entries(t, k, n["labels"]) if has_room(t, k, en, sp)]
+            elig = eligible_entries(t, k, n["labels"])
+            room = [en["name"] for en, sp in elig if has_room(t, k, en, sp)]
             if room:
                 bad.append({"step": k, "clause": "steady state: a servable node has no pod CIDRs",
                             "detail": "%s could be served by %s" % (n["name"], room), "cls": "node-not-served"})
+            else:
+                # "can serve" is about CIDRs in use, not about what the allocator has marked: a block of an eligible entry
+                # that nothing in the cluster justifies (and that is not one of the recorded leaks) is room the node is denied
+                names = {en["name"] for en, sp in elig}
+                blocked = [b for b in leaks if any((" in %s " % nm) in b["detail"] for nm in names)]
+                if blocked:
+                    bad.append({"step": k, "clause": "steady state: a servable node has no pod CIDRs",
+                                "detail": "%s is refused only because of %s" % (n["name"], blocked[0]["detail"]), "cls": "node-not-served-unjustified-block"})
     # steady state: every existing, non-deleting ClusterCIDR to which the controller itself added its finalizer (it accepted
     # the spec) is mapped; otherwise nodes only it can serve wait for ever
     finalized = set()
